@@ -24,8 +24,8 @@ func deleteOnlyCond(ks, wfk, oldH, oldV, newH, newV, oldL, newL string) string {
 
 // checkDeleteOnly emits the delete-only obligations of the function's own contract at a return.
 func (fr *Frame) checkDeleteOnly(st *State, g string, ret *ssa.Return) {
-	if !fr.top || fr.spec == nil || fr.spec.Assume {
-		return
+	if !fr.top || fr.spec == nil || fr.spec.Assume || fr.spec.NoFrame {
+		return // noframe: the whole modifies clause, including its delete-only part, is assumed
 	}
 	fc := fr.fc
 	for _, m := range fr.spec.Modifies {
